@@ -15,7 +15,8 @@ folded by evaluating them with the real classes of /repo, so that e.g. `~TCPFlag
 What is assumed (recorded in the trusted base): attribute reads of the Scapy base packet are the abstract base's fields
 (table ATTRS); the hint prelude of _impersonate_options (dict(tcp.options) + int_only) must be literally the expected
 statements and is read as the base's option hints; `dict(new_options).get("MSS")` is the last MSS option of the list;
-`random_string(size=n)` draws n indices below 62.  Anything else raises Unsupported (the tie is then reported broken).
+`random_string(size=n)` draws n indices below 62; `tcp_payload(tcp)` (checked literally) is the
+base's TCP payload without link-layer padding.  Anything else raises Unsupported (the tie is then reported broken).
 """
 import ast
 import os
@@ -350,6 +351,8 @@ class Tr:
         if f == "random_string" and not e.args and len(e.keywords) == 1 and e.keywords[0].arg == "size":
             n = self.coerce(self.ex(e.keywords[0].value, env), "Z", e)
             return self.bind_all([n], lambda a: (True, "(gen_random_string %s)" % a[0], "PAY"))
+        if f == "tcp_payload" and len(e.args) == 1 and not e.keywords and self.name_path(e.args[0]) == "tcp":
+            return (False, "(b_payload b)", "PAY")        # impersonate/utils.py tcp_payload, checked literally in main()
         if f == "NoPayload" and not e.args and not e.keywords:
             return (False, "[]", "PAY")
         if f == "Raw" and not e.args and len(e.keywords) == 1 and e.keywords[0].arg == "load":
@@ -672,6 +675,10 @@ def main():
             or ast.unparse(rs[0].args) != "*, size: int, chars=_DEFAULT_CHARS" \
             or "_DEFAULT_CHARS = string.ascii_uppercase + string.ascii_lowercase + string.digits" not in consts:
         raise Unsupported("impersonate/utils.py random_string differs from the assumed primitive")
+    tp = [n for n in usrc.body if isinstance(n, ast.FunctionDef) and n.name == "tcp_payload"]
+    if len(tp) != 1 or [ast.unparse(x) for x in tp[0].body if not (isinstance(x, ast.Expr) and isinstance(x.value, ast.Constant))] != \
+            ["payload = tcp.payload", "return NoPayload() if isinstance(payload, Padding) else payload"]:
+        raise Unsupported("impersonate/utils.py tcp_payload differs from the assumed primitive (the base's TCP payload without link-layer padding)")
     parts = [PRELUDE]
     for name in ["_impersonate_ip", "_impersonate_options", "_impersonate_window", "_impersonate_tcp", "_impersonate_payload"]:
         if name not in fns:
